@@ -98,8 +98,10 @@ def read_cordero():
             zero_unc_syms.append(f[1])
     # confirmation from the module's own comments / docstring
     src = raw.decode("latin-1")
-    head = src[:src.index('Cordero = """')]
-    c1 = "uncertainty (0.01A)" in head.split("\n")[-2]
+    # (comments are read for the notes only; a reformatted source simply has none to confirm)
+    pos = src.find('Cordero = ')
+    head = src[:pos] if pos >= 0 else ""
+    c1 = len(head.split("\n")) >= 2 and "uncertainty (0.01A)" in head.split("\n")[-2]
     c2 = "only the first spin state is used" in head
     doc = ast.get_docstring(tree) or ""
     m = re.search(r"uncertainty of 0\.00\.\s+These are ([A-Za-z,\s]+?)\.", doc)
